@@ -239,7 +239,7 @@ def write_evidence(pid, tier, seed, results, known_hits, vios, problems, wall, w
                 labels.add((q.name, p.get("property")))
         qs.append({"query": q.name, "harness": q.src, "entry": q.entry, "defines": q.defines, "what": q.desc,
                    "bounds": dict(q.bounds, unwind=q.unwind, unwindset=q.unwindset), "replaced_calls": q.replace,
-                   "status": r.status, "backend": r.backend, "properties": r.nprops, "discharged": r.nsuccess,
+                   "status": r.status, "backend": r.backend, "agreeing_backends": r.agreeing_backends, "properties": r.nprops, "discharged": r.nsuccess,
                    "failed": [p.get("description") for p in r.failed], "witnesses_reached": r.witness_reached,
                    "wall_s": round(r.wall, 2), "solver_s": r.solver_s, "symex_s": r.stats.get("symex_s"), "sat_variables": r.stats.get("sat_variables"), "sat_clauses": r.stats.get("sat_clauses"), "peak_rss_mb": r.rss_mb,
                    "big_endian": q.big_endian, "error": r.error})
